@@ -34,6 +34,7 @@ type c12ev struct {
 	out       string // what the device prints after this event's return, before ask / prompt
 	ask       string // the question the device ends its reaction with ("" = a prompt)
 	devHidden bool   // the device does not echo this event's input
+	pre       string // a prompt-like status line the device prints (and holds) before out / ask
 }
 
 type c12case struct {
@@ -52,6 +53,7 @@ type c12case struct {
 	setup    int  // 0 clean: the device is silent until the first return and a GetPrompt precedes the operation; 1 stale: the device shows its prompt on connect and nothing reads it; 2 shifted: prompt on connect, then a GetPrompt (which returns at the stale prompt and leaves its own answer behind)
 	host     string
 	weird    string // "" or the name of the out-of-domain twist that was applied
+	statusLine bool // some event carries a prompt-like status line (in domain)
 	clean    bool   // built without any twist, from a clean queue, with questions no proper prefix of which matches their pattern, and with hidden inputs the device does not echo
 
 	// inter
@@ -61,7 +63,8 @@ type c12case struct {
 	earlyMode string // done | abort
 
 	// esc
-	outcome   string // ask | grant | refuse
+	detour    string // escalation: a prompt of an unrelated level shown (and held) before the outcome's reaction
+	outcome   string // ask | grant | refuse | detour-only
 	secret    string // AuthSecondary
 	devSecret string // what the device accepts
 	askText   string
@@ -210,8 +213,24 @@ func genC12(seed uint64, thorough bool) c12case {
 			cs.earlyAt = n - 1 // completion pattern after the last event: nothing is cut short
 			cs.earlyMode = "done"
 		}
+		// in-domain twist: before the expected response of an event that is followed by another
+		// one, the device shows — in a read of its own, then pausing — a line that looks like a
+		// prompt but is neither the expected response nor a complete pattern
+		if r.Chance(1, 7) {
+			var cand []int
+			for i := 0; i+1 < n; i++ {
+				if cs.events[i].resp >= 0 && i != cs.earlyAt {
+					cand = append(cand, i)
+				}
+			}
+			if len(cand) > 0 {
+				i := cand[r.Intn(len(cand))]
+				cs.events[i].pre = r.Pick([]string{"stage:1/2>", cs.host + "#", "copy:50/100$", "(busy)#"})
+				cs.statusLine = true
+			}
+		}
 		// out-of-domain twists (never gate the oracle: the Lean side reports dom = 0 for them)
-		if r.Chance(1, 10) {
+		if !cs.statusLine && r.Chance(1, 10) {
 			i := r.Intn(n)
 			switch r.Intn(3) {
 			case 0:
@@ -231,6 +250,7 @@ func genC12(seed uint64, thorough bool) c12case {
 		}
 		for _, e := range cs.events {
 			note(e.out)
+			note(e.pre)
 			if l := len(e.ask) + len(e.input) + len(e.input)/3 + 2; l > longest {
 				longest = l
 			}
@@ -272,7 +292,17 @@ func genC12(seed uint64, thorough bool) c12case {
 			cs.escAuth = false
 			cs.weird = "no-escalate-auth"
 		}
-		if (cs.outcome == "grant" || cs.outcome == "ask" && cs.weird == "") && r.Chance(1, 3) {
+		// in-domain: the device answers the escalate command with the prompt of an unrelated level
+		// (matches the channel's joined prompt pattern, but neither the previous nor the target
+		// level) before asking — or instead of asking
+		if cs.weird == "" && cs.outcome == "ask" && r.Chance(1, 4) {
+			cs.detour = cs.host + "(config)#"
+			cs.statusLine = true
+			if r.Chance(1, 4) {
+				cs.outcome, cs.detour = "detour-only", ""
+			}
+		}
+		if (cs.outcome == "grant" || cs.outcome == "ask" && cs.weird == "") && cs.detour == "" && r.Chance(1, 3) {
 			cs.target = "configuration"
 		}
 		longest = len(cs.host) + 90
@@ -438,8 +468,13 @@ func c12levels() map[string]*network.PrivilegeLevel {
 
 // operations that are expected to run into their timeout get a short one; all others a generous
 // one (a 1-byte segmentation at a 250 µs read delay needs tens of milliseconds per dialogue)
+// c12hold is how long a device keeps back the rest of its reaction after a status line: long
+// against the read delay (an implementation that stops at the status line types ahead well within
+// it), short against the operation timeout
+const c12hold = 4 * time.Millisecond
+
 func c12timeout(cs c12case) time.Duration {
-	if cs.weird == "unknown-question" {
+	if cs.weird == "unknown-question" || cs.outcome == "detour-only" {
 		return 150 * time.Millisecond // stalls right after the escalate command: a few bytes in
 	}
 	return 3 * time.Second
@@ -466,7 +501,7 @@ func runC12case(cs c12case) (o c12obs) {
 		var script []sim.DlgStep
 		if cs.kind == "inter" {
 			for i, e := range cs.events {
-				st := sim.DlgStep{Out: e.out, Ask: e.ask, NextMode: "exec"}
+				st := sim.DlgStep{Out: e.out, Ask: e.ask, NextMode: "exec", Pre: e.pre, Hold: c12hold}
 				if i+1 < len(cs.events) {
 					st.Hidden = cs.events[i+1].devHidden
 				}
@@ -572,6 +607,7 @@ func runC12case(cs c12case) (o c12obs) {
 		})
 	case "esc":
 		dev := sim.NewEscDevice(cs.host, cs.outcome, cs.devSecret, cs.askText)
+		dev.Detour, dev.Hold = cs.detour, c12hold
 		dev.NL = cs.nl
 		dev.EchoWrap = cs.wrap
 		dev.Seg = c12seg(cs)
@@ -939,6 +975,9 @@ func c12check(c *ctx, cases []c12case) {
 		}
 		res.TracesVsImpl++
 		res.Count(fmt.Sprintf("dom:%v", allDom))
+		if cs.statusLine {
+			res.Count(fmt.Sprintf("status-line/detour kind=%s outcome=%s dom:%v", cs.kind, cs.outcome, allDom))
+		}
 		nontriv := allDom && okAll && (cs.kind != "inter" || len(cs.events) >= 2)
 		res.Case(key, nontriv)
 		if i%257 == 0 {
@@ -1129,6 +1168,8 @@ func c12escOracle(res *vlib.Result, caseLine string, cs c12case, o c12obs, trace
 	switch {
 	case cs.outcome == "refuse" || cs.weird == "denied":
 		wantErr, wantMode = "privilege", "exec"
+	case cs.outcome == "detour-only":
+		wantErr, wantMode = "timeout", "configuration"
 	}
 	if o.err != wantErr {
 		res.Fail("oracle", caseLine, fmt.Sprintf("AcquirePriv(%s) returned error class %s, expected %s (outcome %s twist %q)", cs.target, o.err, wantErr, cs.outcome, cs.weird), "error:"+o.err)
